@@ -285,6 +285,19 @@ pub fn query<T: DeserializeOwned, M: Serialize>(app: &App, contract: &Addr, msg:
     app.wrap().query_wasm_smart(contract.clone(), msg).map_err(|e| format!("{e}"))
 }
 
+/// like `query`, but decodes the answer with serde_json (std): needed for responses whose maps have
+/// integer keys (Flow.emitted_tokens / asset_history), which serde-json-wasm cannot deserialize
+pub fn query_std<T: DeserializeOwned, M: Serialize>(app: &App, contract: &Addr, msg: &M) -> Result<T, String> {
+    use cosmwasm_std::{ContractResult, QueryRequest, SystemResult, WasmQuery};
+    let req: QueryRequest<Empty> = QueryRequest::Wasm(WasmQuery::Smart { contract_addr: contract.to_string(), msg: to_json_binary(msg).map_err(|e| e.to_string())? });
+    let raw = cosmwasm_std::to_json_vec(&req).map_err(|e| e.to_string())?;
+    match app.wrap().raw_query(&raw) {
+        SystemResult::Ok(ContractResult::Ok(bin)) => serde_json::from_slice(bin.as_slice()).map_err(|e| e.to_string()),
+        SystemResult::Ok(ContractResult::Err(e)) => Err(e),
+        SystemResult::Err(e) => Err(e.to_string()),
+    }
+}
+
 pub fn bank_send(app: &mut App, from: &Addr, to: &Addr, amount: u128, denom: &str) -> Result<AppResponse, String> {
     app.send_tokens(from.clone(), to.clone(), &[coin(amount, denom)]).map_err(|e| format!("{e:#}"))
 }
